@@ -61,7 +61,9 @@ type c16obs struct {
 	entryRunning []int // running wrapped handlers when the wrapper was entered, per request
 	entryOcc     []int // occupied TimeoutHandler slots (len(s.concurrencyCh)) at that moment
 	entryLateRet []int // timed-out handlers that had returned by then (their slot may or may not be released yet)
-	lateReturned int
+	abandoned    []string        // paths whose wrapper call ended by its timer: nobody waits for these handlers, so the release of their slot is asynchronous by nature
+	hret         map[string]bool // handler of path has returned
+	pre          map[string]bool // the wrapper had already timed out when the handler goroutine entered h
 	admitted     int // wrapper calls that were not turned away with 429
 	bg           int // goroutines started by /r handlers that are still running
 	hStarted     int
@@ -130,13 +132,14 @@ func c16handler(o *c16obs, sc c16scn) RequestHandler {
 		}
 		o.hStarted++
 		o.running++
+		if ctx.timeoutResponse != nil {
+			o.pre[p] = true // the wrapper timed out before the handler goroutine even ran
+		}
 		if o.running > o.maxRunning {
 			o.maxRunning = o.running
 		}
 		defer func() {
-			if ctx.timeoutResponse != nil && p[1] == 's' {
-				o.lateReturned++
-			}
+			o.hret[p] = true
 			o.running--
 		}()
 		switch p[1] {
@@ -277,7 +280,7 @@ func (c16nopLogger) Printf(string, ...any) {}
 func c16body(sc c16scn) func() {
 	return func() {
 		workerChanCap = 1
-		o := &c16obs{}
+		o := &c16obs{hret: map[string]bool{}, pre: map[string]bool{}}
 		mcrt.SetUserData(o)
 		s := &Server{NoDefaultDate: true, NoDefaultServerHeader: true, Logger: c16nopLogger{}, Concurrency: sc.conc, StreamRequestBody: sc.stream}
 		wrapped := TimeoutWithCodeHandler(c16handler(o, sc), sc.T, c16msg, sc.code)
@@ -285,8 +288,20 @@ func c16body(sc c16scn) func() {
 			// handlers whose goroutine was spawned by an earlier wrapper call but has not entered h yet count as running
 			o.entryRunning = append(o.entryRunning, o.running+(o.admitted-o.hStarted))
 			o.entryOcc = append(o.entryOcc, len(s.concurrencyCh))
-			o.entryLateRet = append(o.entryLateRet, o.lateReturned)
+			lateRet := 0
+			for _, ap := range o.abandoned {
+				if o.hret[ap] {
+					lateRet++
+				}
+			}
+			o.entryLateRet = append(o.entryLateRet, lateRet)
+			rp := string(ctx.Path())
 			wrapped(ctx)
+			// the wrapper's own timeout: /s and /f handlers never set a timeout response themselves; for /t and /r it is
+			// the wrapper's if the handler has not returned, had found it set on entry, or it carries the wrapper's message
+			if tr := ctx.timeoutResponse; tr != nil && len(rp) > 1 && (rp[1] == 's' || rp[1] == 'f' || !o.hret[rp] || o.pre[rp] || string(tr.Body()) == c16msg) {
+				o.abandoned = append(o.abandoned, rp)
+			}
 			if !(ctx.timeoutResponse == nil && ctx.Response.StatusCode() == StatusTooManyRequests) {
 				o.admitted++
 			}
@@ -516,6 +531,9 @@ func TestVerif_C16(t *testing.T) {
 	}
 	var scs []mcx.Scenario
 	for _, sc := range list {
+		if f := os.Getenv("C16_ONLY"); f != "" && !strings.Contains(sc.name, f) {
+			continue
+		}
 		bb := b
 		if sc.size == 'M' && !forced {
 			bb = 1
